@@ -295,6 +295,17 @@ func runC20(env *Env) {
 				time.Sleep(3 * time.Millisecond) // whatever watches the context has seen it end
 			}
 		}
+		// (Model/Partitions.v: the generators of one program have pairwise different partitions)
+		partOf := map[int]int{}
+		for k, g := range gens {
+			if x, ok := toID(g.New().Bytes()); ok {
+				_, _, part, _ := decodeSno(x)
+				if k0, seen := partOf[part]; seen {
+					rep.Violate("C20-duplicate", cs, fmt.Sprintf("generators %d and %d of this program issue ids of the same partition %d", k0, k, part))
+				}
+				partOf[part] = k
+			}
+		}
 		all := c20Draw(gens, 1, dur/8, 1<<17)
 		for _, c := range cancels {
 			c()
